@@ -100,8 +100,10 @@ def run(ctx):
     exe = tp.build(d)
     nsc = 40 if ctx.quick else 600
     per_proc = 10
-    ntr = 0; total_ev = 0; samples = []; sid = 0
+    ntr = 0; total_ev = 0; samples = []; sid = 0; run_failures = 0
     while sid < nsc:
+        if run_failures >= 2:
+            ctx.log("pool hung/died in %d scenario batches (reported): the remaining scenarios are not run" % run_failures); break
         texts = []
         for _ in range(per_proc):
             sid += 1
@@ -113,6 +115,7 @@ def run(ctx):
         if rc != 0 or bad:
             ctx.fail("run:tp_drv:%s" % (bad[0]["e"] + ":" + str(bad[0].get("where", bad[0].get("sig", ""))) if bad else "exit-%s" % rc),
                      out[-1500:] + "\n" + json.dumps(evs[-25:], indent=0), {"scenario": "".join(texts), "seed": ctx.seed + sid})
+            run_failures += 1
             continue
         ok, info, r = tp.validate(ctx, prep(evs), d, "c10_%d" % sid, KEEP)
         ntr += len(texts); total_ev += info["events"]
@@ -139,6 +142,8 @@ def run(ctx):
     k = common.san_key(out)
     if k:
         ctx.fail("asan:%s:%s" % (k[0], k[1]), out[-3500:], {"scenario": "\n".join(sc)})
+    elif rc in (3, 4):      # watchdog / fatal signal inside the pool: the code under test
+        ctx.fail("run:tp_drv:asan-run:%s" % ("Hang" if rc == 3 else "Crash"), out[-1500:] + "\n" + json.dumps(evs[-25:], indent=0), {"scenario": "\n".join(sc)})
     elif rc != 0:
         raise common.Infra("asan directed run failed rc=%s\n%s" % (rc, out[-1500:]))
     else:
